@@ -56,6 +56,8 @@ def run(run):
     _r3_locality(run)
     _r4_dtype_tables(run)
     _r5_persistence(run)
+    from . import imgrep
+    imgrep.check(run, "C15.R6")
 
 
 def _enum_members(project):
@@ -155,6 +157,14 @@ def _r1_chains(run, members):
     return results
 
 
+def _is_view_of(t, B):
+    while t[0] in ("sub", "item"):
+        t = t[1]
+        if t == B:
+            return True
+    return False
+
+
 def _classify_fill(evs):
     fills = [e for e in evs if e.kind == "call" and e.term[1][0] == "attr" and e.term[1][2] == "fill"]
     vals = set()
@@ -186,15 +196,33 @@ def _r2_conventions(run, members, results):
         got = _classify_fill(r.events)
         if got != {want_fill}:
             problems.append(("clear", f, "clear() fills %s buffers with %s; the undefined value for this mode is %s" % (mode, sorted(got) or "nothing", want_fill)))
-        # fill
+        # fill: the *whole* buffer gets the undefined value first, unconditionally; then the addressed rectangle is written
+        # into the buffer array itself (a sub-view taken with array indexers would be a copy)
         f = project.fn(q_fill)
         r = results[(q_fill, mode)]
-        got = _classify_fill(r.events)
+        ps = f.params()
+        B = ("call", ("attr", ("sym", ps[1]), "_as_writeable_array"), (), ())
+        by_t, bx_t = ("sym", ps[4]), ("sym", ps[5])
+        whole = [e for e in r.events if e.kind == "call" and e.term[1] == ("attr", B, "fill") and not [c for c in e.pc if c[0] != "loop"]]
+        got = _classify_fill(whole)
         if got != {want_fill}:
-            problems.append(("fill", f, "fill_into_maskable_buffer pre-fills %s buffers with %s; expected %s" % (mode, sorted(got) or "nothing", want_fill)))
-        stores = [e for e in r.events if e.kind == "store" and e.term[1][0][0] == "sub"]
+            anyf = _classify_fill(r.events)
+            if anyf and not whole:
+                problems.append(("fill", f, "fill_into_maskable_buffer clears %s buffers only conditionally or only in part: pixels outside the addressed rectangle "
+                                 "can keep what the previous user of the buffer left there" % mode))
+            else:
+                problems.append(("fill", f, "fill_into_maskable_buffer pre-fills %s buffers with %s; expected %s" % (mode, sorted(got) or "nothing", want_fill)))
+        stores = [e for e in r.events if e.kind == "store" and e.term[1][0][0] in ("sub", "item")]
         if not stores:
             problems.append(("fill", f, "fill of a %s image copies nothing into the buffer" % mode))
+        for e in stores:
+            lv = e.term[1][0]
+            idx = lv[2] if lv[0] == "sub" else None
+            direct = lv[1] == B and idx is not None and idx[0] == "tuple" and tuple(idx[1][:2]) == (by_t, bx_t)
+            if not direct and _is_view_of(lv[1], B):
+                problems.append(("fill", f, "fill of a %s image writes through %s, a sub-array of the buffer taken before the assignment: with array (fancy) indexers that "
+                                 "is a copy, and the buffer itself stays undefined" % (mode, show(lv[1])[:60])))
+                break
         if mode == "RGB":
             alpha = [e for e in stores if num_value(e.term[1][1]) == 255 and show(e.term[1][0][2]).endswith("(3))")]
             if not alpha:
